@@ -638,7 +638,11 @@ deriving DecidableEq, Repr, Inhabited
 
 def abortNow (ft : Option Fault) (c : Cfg) (nops : Nat) : Bool :=
   match ft with
-  | some f => f.kind == .abort && nops == f.k && !c.handling && !c.prog.isEmpty
+  | some f =>
+    -- the exception arrives between two calls into the saver: the bookkeeping that ends the current call
+    -- (`armed`: the constructor returns; `poll`: `save_from` looks at its futures) still happens
+    f.kind == .abort && nops == f.k && !c.handling && !c.prog.isEmpty
+      && c.prog.head? != some .armed && c.prog.head? != some .poll
   | none => false
 
 /-- result of a scheduled run: configuration, operations issued (newest first), did the process die -/
